@@ -75,7 +75,7 @@ func c02DbPtrUndo(c *Ctx, ix *Index, rule string) {
 	}
 	// (a) who assigns a non-nil database pointer to an in-memory pointer
 	for _, fn := range c.P.FuncsInPkg(pk) {
-		for _, b := range fn.Blocks {
+		for _, b := range blocksIP(fn) {
 			for _, in := range b.Instrs {
 				st, ok := in.(*ssa.Store)
 				if !ok || !isDBI(st.Addr) || isNilConst(st.Val) {
@@ -110,7 +110,7 @@ func c02DbPtrUndo(c *Ctx, ix *Index, rule string) {
 	// (b) Reset undoes the recorded assignments before forgetting them; Commit forgets them only on its success paths
 	if fn := c.needFn(rule, pk+".(*badgerBatch).Reset"); fn != nil {
 		var undo, forget []ssa.Instruction
-		for _, b := range fn.Blocks {
+		for _, b := range blocksIP(fn) {
 			for _, in := range b.Instrs {
 				st, ok := in.(*ssa.Store)
 				if !ok {
@@ -137,7 +137,7 @@ func c02DbPtrUndo(c *Ctx, ix *Index, rule string) {
 	}
 	if fn := c.needFn(rule, pk+".(*badgerBatch).Commit"); fn != nil {
 		var forget []ssa.Instruction
-		for _, b := range fn.Blocks {
+		for _, b := range blocksIP(fn) {
 			for _, in := range b.Instrs {
 				if st, ok := in.(*ssa.Store); ok && strings.HasSuffix(vstr(st.Addr), "param:ba.assignedPtrs") && isNilConst(st.Val) {
 					forget = append(forget, in)
